@@ -12,8 +12,10 @@ from pipeline import Pipeline, Gen
 import verifkit as vk
 
 
-def S(act, who=0, as_=None, c=0, amt=0, m=0, ch=0, k=0, q=0, via=""):
-    return {"act": act, "args": {"who": who, "as": who if as_ is None else as_, "c": c, "amt": amt, "m": m, "ch": ch, "k": k, "q": q, "via": via}}
+def S(act, who=0, as_=None, c=0, amt=0, m=0, ch=0, k=0, q=0, via="", d=None):
+    if d is None:
+        d = 1 if act in ("AddLicense", "Sale", "Gift") else 0       # 1 = bond denom, 2 = uusdc
+    return {"act": act, "args": {"who": who, "as": who if as_ is None else as_, "c": c, "amt": amt, "m": m, "ch": ch, "k": k, "q": q, "via": via, "d": d}}
 
 
 CFG = [S("SetFunders", 1, as_=2), S("SetFeegranter"), S("SetSale", ch=1, k=1)]
@@ -23,11 +25,13 @@ ACTS = ("AddLicense", "Register", "Auth", "Sale", "SetFunders", "SetFeegranter",
 class C18(Pipeline):
     pid = "C18"
     mc = [("LightNode_mc", "LightNode_mc", ("quick", "thorough")),
+          ("LightNode_mc", "LightNode_mc_chains", ("thorough",)),
           ("LightNode_mc", "LightNode_mc_deep", ("thorough",))]
-    gens = [Gen("LightNodeGen", "LightNodeGen_cover", "bfs", tiers=("quick",), timeout=300, cap=600),
-            Gen("LightNodeGen", "LightNodeGen_sale_cover", "bfs", tiers=("quick",), timeout=300, cap=700),
-            Gen("LightNodeGen", "LightNodeGen_vest_cover", "bfs", tiers=("quick",), timeout=300, cap=350),
-            Gen("LightNodeGen", "LightNodeGen_sim", "simulate", num=150, depth=16, tiers=("quick",), timeout=300),
+    gens = [Gen("LightNodeGen", "LightNodeGen_cover", "bfs", tiers=("quick",), timeout=300, cap=500),
+            Gen("LightNodeGen", "LightNodeGen_sale_cover", "bfs", tiers=("quick",), timeout=300, cap=500),
+            Gen("LightNodeGen", "LightNodeGen_vest_cover", "bfs", tiers=("quick",), timeout=300, cap=300),
+            Gen("LightNodeGen", "LightNodeGen_denom_cover", "bfs", tiers=("quick", "thorough"), timeout=300),
+            Gen("LightNodeGen", "LightNodeGen_sim", "simulate", num=100, depth=16, tiers=("quick",), timeout=300),
             Gen("LightNodeGen", "LightNodeGen_cover", "bfs", tiers=("thorough",), timeout=600),
             Gen("LightNodeGen", "LightNodeGen_sale_cover", "bfs", tiers=("thorough",), timeout=600),
             Gen("LightNodeGen", "LightNodeGen_vest_cover", "bfs", tiers=("thorough",), timeout=600),
@@ -39,7 +43,7 @@ class C18(Pipeline):
     min_histories = 200
     assumptions = [
         "every action is exactly one block of the full application (app.New: real ante chain, message router, begin/end blockers of all modules) with 3 bonded validators; every history runs on a fresh application; keys derive from VERIF_SEED; block time advances 5 s per block, an Advance step delivers one block whose time is the requested quarter of a client's vesting window",
-        "who may create a licence: MsgAddLightNodeClientLicense has no authority check in the msg server - any account may send it and pays the amount itself (users 1..3 with 3, 0.5 and 2 GRAIN); licences are created in ugrain only (the message accepts any denom; other denoms are not exercised)",
+        "who may create a licence: MsgAddLightNodeClientLicense has no authority check in the msg server - any account may send it and pays the amount itself; the message accepts a coin of ANY denomination: two are exercised, the bond denom ugrain (users 1..3 hold 3, 0.5 and 2 GRAIN) and a second genesis-funded denom uusdc (users 1, 2 hold 1 and 2 units); escrow, licence sums, balances, original vesting and locked coins are modelled, observed and monitored per denomination; sales and gifts are in the bond denom",
         "activation / authentication: really signed MsgRegisterLightNodeClient / MsgAuthLightNodeClient by the client key (fresh keys 11, 12 have no account before a licence creates it) and by other accounts naming the client as Metadata.Creator; no fee grants FROM the tracked clients exist (x/paloma's VerifyAuthorisedSignatureDecorator lets a grantee act for the granter; that delegation is property C03's subject)",
         "sale: every one of the 3 validators signs a MsgLightNodeSaleClaim (skyway_nonce = its last nonce + 1, compass id of the activated chain) in one block; the skyway end blocker of that block tallies and runs handleLightNodeSale in the attestation's cache context; quorum rules are property C02's subject",
         "configuration (funders, fee granter, sale contracts): the governance proposal HANDLERS registered in the app's gov router (x/paloma NewPalomaProposalHandler, x/skyway NewSkywayProposalHandler) are called with the proposal content on the set-up context and committed by the next block; proposal submission, deposit and voting are not replayed",
@@ -51,6 +55,15 @@ class C18(Pipeline):
 
     def extra_histories(self, tier):
         return [
+            # two pending licences in different denominations, one activates (then the other): each is paid in its own coin
+            [S("AddLicense", 1, c=11, amt=1, m=1), S("AddLicense", 2, c=12, amt=1, m=1, d=2), S("Register", 12), S("Advance", c=12, q=2), S("Register", 11),
+             S("Advance", c=11, q=2), S("Advance", c=12, q=4), S("Advance", c=11, q=5)],
+            [S("AddLicense", 2, c=11, amt=2, m=24, d=2), S("AddLicense", 3, c=12, amt=2, m=1), S("Register", 11), S("Gift", 1, amt=1, via="keeper"), S("Advance", c=11, q=1),
+             S("Register", 12), S("Advance", c=11, q=2), S("AddLicense", 1, c=12, amt=1, m=1, d=2)],
+            # the other denom without a bond-denom licence pending; payer without that denom; zero amount in that denom
+            [S("AddLicense", 3, c=11, amt=1, m=1, d=2), S("AddLicense", 1, c=11, amt=0, m=1, d=2), S("AddLicense", 1, c=11, amt=1, m=24, d=2), S("AddLicense", 1, c=12, amt=1, m=1, d=2),
+             S("Register", 11), S("Advance", c=11, q=2), S("Advance", c=11, q=4)],
+            CFG + [S("AddLicense", 2, c=11, amt=1, m=1, d=2), S("Sale", c=12, amt=2, ch=1, k=1), S("Register", 11), S("Register", 12), S("Advance", c=11, q=2), S("Advance", c=12, q=1)],
             # direct licences: payer without funds, existing account, zero amount, duplicate; activation by others / twice; vesting window
             [S("AddLicense", 1, c=11, amt=1, m=1), S("AddLicense", 3, c=11, amt=1, m=1), S("AddLicense", 2, c=12, amt=1, m=1), S("AddLicense", 1, c=3, amt=1, m=1),
              S("AddLicense", 1, c=12, amt=0, m=1), S("Register", 12), S("Register", 3, as_=11), S("Auth", 11), S("Register", 11), S("Register", 11), S("Auth", 11),
@@ -102,6 +115,20 @@ class C18(Pipeline):
         fr = {(c["num"], c["den"]) for e in events for c in e["obs"].get("cl", []) if c["acct"] == 2}
         if not {(0, 1), (1, 4), (1, 2), (1, 1)} <= fr:
             return "vesting not observed at start / quarter / middle / end: %s" % sorted(fr)[:12]
+        # an activation while licences in two different denominations are pending, for either denomination
+        mixed = set()
+        for evs in byh.values():
+            for p, e in zip(evs, evs[1:]):
+                if e["act"] == "Register" and e.get("res") == "ok":
+                    dens = {c["lden"] for c in p["obs"]["cl"] if c["lic"] == 1}
+                    if len(dens) >= 2:
+                        mixed.add([c["oden"] for c in e["obs"]["cl"] if c["c"] == e["args"]["as"]][0])
+        self._mixed = sorted(mixed)
+        if not {1, 2} <= mixed:
+            return "no activation with pending licences in two denominations for both denominations: %s" % sorted(mixed)
+        fr2 = {(c["num"], c["den"]) for e in events for c in e["obs"].get("cl", []) if c["acct"] == 2 and c["oden"] == 2}
+        if not {(0, 1), (1, 2), (1, 1)} <= fr2:
+            return "vesting of the second denomination not observed at start / middle / end: %s" % sorted(fr2)[:12]
         return None
 
     def extra_coverage(self, tier):
@@ -112,7 +139,13 @@ class C18(Pipeline):
                 if c["acct"] == 2 and c["den"] <= 4:
                     k = "%d/%d" % (c["num"], c["den"])
                     fr[k] = fr.get(k, 0) + 1
-        return {"sales": getattr(self, "_sales", {}), "vesting_observations_at_fraction": fr}
+        lic_d = {}
+        for e in ev:
+            if e["act"] == "AddLicense" and e.get("res") == "ok":
+                k = "denom%d" % e["args"]["d"]
+                lic_d[k] = lic_d.get(k, 0) + 1
+        return {"sales": getattr(self, "_sales", {}), "vesting_observations_at_fraction": fr, "direct_licences_by_denom": lic_d,
+                "activations_with_two_denoms_pending_of_denom": getattr(self, "_mixed", [])}
 
     validate_chunks = 4
 
@@ -201,7 +234,7 @@ class C18(Pipeline):
                 return r
         else:
             evs = copy.deepcopy(byh[h])
-            evs[k]["obs"]["escrow"] -= 1
+            evs[k]["obs"]["escrow"][evs[k]["args"]["d"] - 1] -= 1
             jobs["short_escrow_rejected"] = (evs, has({"C18.EscrowCovers"}))
         # 2. vesting start recorded at an earlier instant than the activation block; 3. activation by another signer's message
         h2, k2 = find(lambda e, pre: e["act"] == "Register" and e["res"] == "ok" and e["args"]["who"] == e["args"]["as"])
@@ -241,8 +274,8 @@ class C18(Pipeline):
             evs = copy.deepcopy(byh[h5])
             for r in evs[k5]["obs"]["cl"]:
                 if r["acct"] == 2 and (r["num"], r["den"]) == (1, 2):
-                    r["locked"] += 3
-                    r["spendable"] -= 3
+                    r["locked"][r["oden"] - 1] += 3
+                    r["spendable"][r["oden"] - 1] -= 3
             jobs["nonlinear_unlock_rejected"] = (evs, has({"C18.ActivationVests"}))
         # 6. a failed request that left an account behind
         h6, k6 = find(lambda e, pre: e["act"] == "AddLicense" and e["res"] == "fail" and e["args"]["c"] in (11, 12) and cl(e, e["args"]["c"])["acct"] == 0)
@@ -254,6 +287,21 @@ class C18(Pipeline):
             evs = copy.deepcopy(byh[h6])
             cl(evs[k6], evs[k6]["args"]["c"])["acct"] = 1
             jobs["leftover_account_rejected"] = (evs, has({"C18.FailureIsNoOp", "C18.ObservedTypes"}))
+        # 8. a licence of the second denom recorded as paid out / vesting in the bond denom (original vesting denom swapped)
+        h8, k8 = find(lambda e, pre: e["act"] == "Register" and e["res"] == "ok" and cl(e, e["args"]["as"])["oden"] == 2)
+        if h8 is None:
+            r = missing("no activation of a licence in the second denomination recorded")
+            if r:
+                return r
+        else:
+            evs = copy.deepcopy(byh[h8])
+            c = evs[k8]["args"]["as"]
+            for x in evs[k8:]:
+                r = cl(x, c)
+                r["oden"] = 1
+                for f in ("locked", "bal", "spendable"):
+                    r[f] = r[f][::-1]
+            jobs["wrong_denom_payout_rejected"] = (evs, has({"C18.ActivationVests", "C18.EscrowCovers"}))
         # 7. the activation event dropped from the trace
         h7, k7 = next(((hh, kk) for hh, ee in byh.items() for kk, e in enumerate(ee[:-1]) if e["act"] == "Register" and e["res"] == "ok"), (None, None))
         if h7 is None:
